@@ -22,6 +22,7 @@ RULE = ('case = (str or bytes, placement in {top, sole element, first of two, di
 ASSUMPTIONS = ['tokenize/ast.literal_eval of CPython 3.12 define what a literal denotes',
                'termination is judged by a deterministic budget of executed package lines, never wall-clock']
 BUDGET = {'quick': {'random': 8000, 'shards': 16}, 'thorough': {'random': 300000, 'shards': 16}}
+FUZZ = {'runs': 40000}   # thorough tier: 16 atheris campaigns of this many executions over the same strategy and oracle
 
 ALPHA_S = ["'", '"', '\\', ' ', '\n', 'a', 'é', '\x00']
 ALPHA_B = [b"'", b'"', b'\\', b' ', b'\n', b'a', b'\xe9', b'\x00']
